@@ -278,6 +278,8 @@ def _walk(o, h, path, seen):
             up(f'{a}={getattr(o.frame, a, None)!r},'.encode())
         d = o.data
         up(type(d).__name__.encode())
+        # how the coordinate presents itself (ra/dec vs x/y/z ...) is part of its state too
+        up(('repr=' + getattr(o.representation_type, '__name__', repr(o.representation_type))).encode())
         for comp in d.components:
             _walk(getattr(d, comp), h, path + '.' + comp, seen)
     elif isinstance(o, regions.Region):
